@@ -27,6 +27,9 @@
 From Coq Require Import List Arith Bool.
 Import ListNotations.
 
+(* a module of its own: the names (state, label, step, run, ...) are those of the other two C40 models *)
+Module SL.
+
 Inductive instr :=
 | ILockReq | ILockAcq | IUnlock | IRLock | IRUnlock
 | IStart (r : nat)       (* r.start(): ring buffer, the reader's goroutine *)
@@ -225,3 +228,5 @@ Definition quiescent (s : state) : Prop := forall pr, In pr (procs s) -> at_rest
 Definition no_mutator (s : state) : Prop :=
   forall p pr, nth_error (procs s) p = Some pr -> holds_w (g s) p = true ->
     match p_op pr with OpAdd _ | OpRemove _ => False | _ => True end.
+
+End SL.
